@@ -840,7 +840,7 @@ theorem api_functions :
 /-- **table obligation** (the model describes the code): the real `safely_unquote_auth_item`
 differs from `partial(unquote, …)` of the regenerated configuration exactly on the non-ASCII code
 points the running `urlsplit` refuses in a netloc for their NFKC form (`Gen.nfkcDelimCodes`,
-probed: every code point, escaped in either case and raw), on which it gives `quote(char)`; the
+probed: every code point escaped, the candidates also in lower case and raw), on which it gives `quote(char)`; the
 model's `nfkcDelimChar` is membership in that table.  On a /repo without the fix the probed list is
 empty and the flag false: the obligation fails. -/
 theorem tables_auth_wrapper :
